@@ -481,4 +481,39 @@ theorem update_rep (k : Key32) (v : Hash32) {t : T} {st1 : σ}
             exact (spineH_fresh H hok hfull h hin2).2 g (List.mem_append_right _ hg) hm
           · intro e; cases e
 
+omit laws in
+theorem nodeOf_isPlaceholder {d : Nat} {t : T} (h : t ≠ .empty) : (nodeOf H hok d t).isPlaceholder = false := by
+  cases t with
+  | empty => exact absurd rfl h
+  | leaf _ _ => simp [nodeOf, Node.isPlaceholder]
+  | node _ _ => simp [nodeOf, Node.isPlaceholder]
+
+/-- **`MerkleTree::insert` refines the structural `insert`**: on a state representing the canonical tree `t`
+it succeeds and leaves a state representing `insert k (H data) t` -/
+theorem insert_rep {s : SMT σ} {t : T} (hr : Rep H hok S s t) (k : Key32) (data : Bytes) (v : Hash32)
+    (hv : v.val = H data) :
+    ∃ s', SmtStore.insert H S s k.val data = (s', .ok ()) ∧
+      Rep H hok S s' (Smt.insert bit32 width 0 k v t) := by
+  obtain ⟨root, st⟩ := s
+  obtain ⟨hcan, hroot, hst⟩ := hr
+  simp only at hroot hst
+  subst hroot
+  have hleafnode : Node.createLeaf H k.val data = nodeOf H hok 0 (.leaf k v) := by
+    simp [Node.createLeaf, nodeOf, hv]
+  have hst1 : Stored H hok S (putNode S st (nodeOf H hok 0 (.leaf k v))) 0 t :=
+    stored_put_leaf H hok S laws k v 0 hst
+  have hleaf : S.get (putNode S st (nodeOf H hok 0 (.leaf k v))) (hb H hok (.leaf k v)) =
+      some (nodeOf H hok 0 (.leaf k v)).toPrim := by
+    rw [get_putNode S laws, nodeOf_hash, if_pos rfl]
+  unfold SmtStore.insert
+  simp only [hleafnode]
+  by_cases ht : t = .empty
+  · subst ht
+    refine ⟨⟨nodeOf H hok 0 (.leaf k v), putNode S st (nodeOf H hok 0 (.leaf k v))⟩, ?_, trivial, rfl, hleaf⟩
+    simp [nodeOf, Node.isPlaceholder]
+  · have hrep1 : Rep H hok S ⟨nodeOf H hok 0 t, putNode S st (nodeOf H hok 0 (.leaf k v))⟩ t :=
+      ⟨hcan, rfl, hst1⟩
+    rw [if_neg (by simp [nodeOf_isPlaceholder H hok ht]), pathSet_zipper H hok S hrep1 k]
+    exact update_rep H hok S laws k v hrep1 hleaf
+
 end FuelVerif.SmtRefine
